@@ -229,3 +229,45 @@ eval_attrs! { fn c15_eval_not_an_instruction() {
     kani::cover!(empty);
     kani::cover!(matches!(t.kind, TokenKind::Dir(_)));
 }}
+
+// ---- jumps with the REAL execute: "the PC changes only if the instruction is itself a jump", and a jump does
+// change it: RET / JMP r / JSRR r through the real VM (traps and the stack extension cut: not reachable from
+// these mnemonics), compared with the reference step at the *current* PC.
+fn cut_trap(_s: &mut RunState, _instr: u16) {
+    kani::assume(false);
+}
+fn cut_stack(_s: &mut RunState, _instr: u16) {
+    kani::assume(false);
+}
+macro_rules! eval_jump {
+    ($name:ident, $kind:expr, $with_reg:expr, |$r:ident| $word:expr) => {
+        #[kani::proof]
+        #[kani::unwind(9)]
+        #[kani::stub(alloc::fmt::format, stubs::fmt_format)]
+        #[kani::stub(crate::symbol::with_symbol_table, stubs::with_symbol_table)]
+        #[kani::stub(crate::output::Output::print_fmt, crate::output::verif_h::print_fmt_count)]
+        #[kani::stub(crate::parser::AsmParser::new_simple, crate::parser::verif_h::new_simple_from_tokens)]
+        #[kani::stub(crate::runtime::RunState::trap, cut_trap)]
+        #[kani::stub(crate::runtime::RunState::stack, cut_stack)]
+        #[kani::stub(crate::error::parse_generic_unexpected, crate::parser::verif_h::generic_unexpected_contract)]
+        #[kani::stub(crate::error::parse_lit_range, crate::parser::verif_h::lit_range_contract)]
+        #[kani::stub(crate::error::parse_eof, crate::parser::verif_h::eof_contract)]
+        #[kani::stub(std::process::exit, crate::verif_h::exits::never)]
+        fn $name() {
+            let mut s = any_state();
+            let $r = any_register();
+            let toks = if $with_reg { vec![instr_token($kind), reg_token($r)] } else { vec![instr_token($kind)] };
+            let probe: u16 = kani::any();
+            let pre = snap(&s);
+            let pre_probe = peek(&s, probe);
+            let word: u16 = $word;
+            let e = crate::verif_h::step(&pre, word, false, |a| peek(&s, a)).unwrap();
+            let ok = run_eval(&mut s, toks);
+            assert!(ok, "well-formed jump refused by eval");
+            crate::runtime::verif_h::assert_effect(&s, &e, probe, pre_probe);
+            kani::cover!(e.pc != pre.pc, "the jump moves the PC");
+        }
+    };
+}
+eval_jump!(c15_eval_ret_real, InstrKind::Ret, false, |r| 0xC1C0 + rn(r) * 0);
+eval_jump!(c15_eval_jmp_real, InstrKind::Jmp, true, |r| 0xC000 + rn(r) * 64);
